@@ -64,6 +64,7 @@ End O15.
 
 Definition case_C15 := case_sync.
 Definition mismatch_C15 (c : case_C15) : bool := mismatch_case c.
-Definition violation_C15 (c : case_C15) : bool := negb (holds_C15 (cs_frepr c) (cs_case c)).
+(* a dry run changes no file: not its bytes (dry_ok) and not its permission bits (SyncObs.perm_row) *)
+Definition violation_C15 (c : case_C15) : bool := negb (holds_C15 (cs_frepr c) (cs_case c) && perm_dry_ok c).
 Definition mismatches_C15 (cs : list case_C15) : list N := indices_where mismatch_C15 cs.
 Definition violations_C15 (cs : list case_C15) : list N := indices_where violation_C15 cs.
